@@ -128,8 +128,8 @@ class EngineBase(PathMgr):
             if isinstance(so, tuple) and (so[1], so[2]) in gd:
                 self.assume(z3.Or(v == smt.ABSENT, self.type_formula(v, gd[(so[1], so[2])])))
         # a member found present means the dict is not empty
-        self._add_pc(z3.Implies(v != smt.ABSENT, z3.Select(self.st.dlen, r) >= 1))
-        self._add_pc(z3.Select(self.st.dlen, r) >= 0)
+        self._add_axiom(z3.Implies(v != smt.ABSENT, z3.Select(self.st.dlen, r) >= 1))
+        self._add_axiom(z3.Select(self.st.dlen, r) >= 0)
         self.bound_ref(v)
         self.json_closed(d, v)
         return v
@@ -153,7 +153,7 @@ class EngineBase(PathMgr):
         l0 = z3.Array('H_dlen', smt.I, smt.I)
         cnt = z3.Sum([z3.If(z3.Select(z3.Select(h0, r), k) != smt.ABSENT, 1, 0) for k in g]) if len(g) > 1 else \
             z3.If(z3.Select(z3.Select(h0, r), g[0]) != smt.ABSENT, 1, 0)
-        self._add_pc(z3.Select(l0, r) >= cnt)
+        self._add_axiom(z3.Select(l0, r) >= cnt)
 
     def dict_set(self, d, k, v) -> None:
         r = Val.r(d)
@@ -251,7 +251,7 @@ class EngineBase(PathMgr):
             if c.name in ('list', 'tuple'):
                 return smt.simp(z3.Length(z3.Select(self.st.seq, r)) > 0)
             if c.name in ('dict', 'defaultdict', 'set', 'frozenset'):
-                self._add_pc(z3.Select(self.st.dlen, r) >= 0)
+                self._add_axiom(z3.Select(self.st.dlen, r) >= 0)
                 return smt.simp(z3.Select(self.st.dlen, r) > 0)
             if c.name == 'object':
                 # JSON-like container or opaque object: list/tuple/dict by class id, else True
@@ -259,7 +259,7 @@ class EngineBase(PathMgr):
                 L, T, D = (builtin_class(n).cid for n in ('list', 'tuple', 'dict'))
                 for n in ('list', 'tuple', 'dict'):
                     self.use_class(builtin_class(n))
-                self._add_pc(z3.Select(self.st.dlen, r) >= 0)
+                self._add_axiom(z3.Select(self.st.dlen, r) >= 0)
                 return smt.simp(z3.If(z3.Or(cid == L, cid == T), z3.Length(z3.Select(self.st.seq, r)) > 0,
                                       z3.If(cid == D, z3.Select(self.st.dlen, r) > 0, z3.BoolVal(True))))
             return z3.BoolVal(True)
@@ -296,7 +296,7 @@ class EngineBase(PathMgr):
         for n in ('list', 'tuple', 'dict'):
             self.use_class(builtin_class(n))
         L, T, D = (builtin_class(n).cid for n in ('list', 'tuple', 'dict'))
-        self._add_pc(z3.Select(self.st.dlen, r) >= 0)
+        self._add_axiom(z3.Select(self.st.dlen, r) >= 0)
         generic = z3.If(z3.Or(cid == L, cid == T), z3.Length(z3.Select(self.st.seq, r)) > 0,
                         z3.If(cid == D, z3.Select(self.st.dlen, r) > 0, z3.BoolVal(True)))
         for k in self.classes:
@@ -337,7 +337,7 @@ class EngineBase(PathMgr):
     def json_closed(self, container, v) -> None:
         """deep JSON-ness: a member/element read from a container that is JSON (on entry) is JSON"""
         if self.is_initial_read(v):
-            self._add_pc(z3.Implies(smt.isjson(container), z3.Or(v == smt.ABSENT, self.type_formula(v, 'json'))))
+            self._add_axiom(z3.Implies(smt.isjson(container), z3.Or(v == smt.ABSENT, self.type_formula(v, 'json'))))
 
     def to_val_bool(self, b):
         return smt.simp(Val.bool(b))
